@@ -79,8 +79,7 @@ LogVarOf(P, i, O) == [k \in 1..O |-> [raw |-> P.lb[i][k], out |-> k]]
 (* sigmoid is uninterpreted: only its range and monotonicity are used (D4)                          *)
 LoRange == << -20, 0 >>
 HiRange == << -4, 5 >>
-RankIn(seq, v) == CHOOSE t \in 1..Len(seq) : seq[t] = v     \* RawMin / RawMax are listed in no particular order:
-OrderOf(seq, v) == Cardinality({t \in 1..Len(seq) : seq[t] < v})   \* rank = number of smaller entries
+OrderOf(seq, v) == Cardinality({t \in 1..Len(seq) : seq[t] < v})   \* rank of v = number of smaller entries of seq
 
 (* ------------------------------------------- GaussianMLPEnsemble.__call__ --- *)
 (* rows : Seq of input vectors, the same for every member (x.ndim = 2)        *)
